@@ -150,6 +150,26 @@ func (ff *funcFlow) Resolve(v ssa.Value, depth int) []*ssa.Function {
 		}
 		return out
 	case *ssa.UnOp:
+		// a variable captured by reference, read inside the closure
+		if fv, ok := x.X.(*ssa.FreeVar); ok {
+			if al, isAl := ff.binding[fv].(*ssa.Alloc); isAl {
+				var out []*ssa.Function
+				for _, r := range *al.Referrers() {
+					if st, ok := r.(*ssa.Store); ok && st.Addr == ssa.Value(al) {
+						out = append(out, ff.Resolve(st.Val, depth+1)...)
+					}
+				}
+				return out
+			}
+			return nil
+		}
+		// a package-level function variable that only its initialiser assigns
+		if g, ok := x.X.(*ssa.Global); ok {
+			if v := globalInitStore(g); v != nil {
+				return ff.Resolve(v, depth+1)
+			}
+			return nil
+		}
 		// a local spilled to memory because a closure captures it: its single store
 		if al, ok := x.X.(*ssa.Alloc); ok {
 			var out []*ssa.Function
